@@ -130,7 +130,7 @@ impl PathSelector {
     /// i.e. when matching a directory implies matching everything below it.
     fn matches_everything_below(pattern: &Pattern) -> bool {
         let s = pattern.to_string();
-        s.ends_with(".*") && !s.ends_with("\\.*")
+        s.ends_with(".*") && !s.ends_with("\\.*") && pattern.dot_matches_new_line()
     }
 
     ///  Returns true if pattern can match absolute paths
